@@ -24,6 +24,11 @@ CHECKS = {
    text="Exhaustive domain for the arithmetic: for all 477 rows and every internal symbol id X < 2^24+K' the solver shows no panic path of Tuple[] is reachable (overflow checks on and off), the tuple lies in the stated ranges and equals an RFC transcription; the eight look-up functions return the row of the smallest K' >= K for symbolic K and refuse K > 56403; the constant tables of the current source equal the pinned RFC values and satisfy the primality/size facts (concrete, all rows); Kani shows Enc[] index generation terminates, never panics and yields exactly d+d1 indices < L for every row and every in-range tuple.",
    note="Trusted: vlib/mir.py executor and its std models; V0..V3 contents/xor are uninterpreted in the SMT queries (contents compared concretely with /verif/oracle/rfc6330_tables.json, which stands in for the printed RFC); Kani's unoptimised-MIR model; per-loop unwinding bounds are enforced by unwinding assertions.",
    design="§4 C15"),
+ "C14": dict(level="model_checking", engine="E2 MIR->SMT (z3 5.1 + cvc5)",
+   technique="modular symbolic execution of the MIR of generate_encoding_parameters, its kl closure and int_div_ceil into integer SMT (division lemma); kl is proved equal to KL(n) over the real Table 2 for every argument the caller can pass and is then used as a contract; unsat verdicts from z3/cvc5, models replayed natively",
+   text="O1 int_div_ceil = ceil when the quotient fits u32 and panics only on a zero divisor (all u64 pairs); O2 the real kl closure equals max{K'<=WS/(Al*ceil(T/(Al*n)))} and never panics for every (T,Al,n,WS) its caller can pass when N_max is feasible (WS over all of u64, all 477 rows unrolled); O2b monotonicity/bounds lemmas of KL; O3 with kl under that contract the returned (T,Z,N,Al) equal the RFC 4.3 derivation written in unbounded integers and nothing panics whenever a valid configuration exists; O4 a larger budget never yields more blocks. O3/O4: F and WS symbolic over u64, every packet size P' <= 319 (quick) / 1087 (thorough) enumerated, both overflow-check settings.",
+   note="Trusted: vlib/mir.py and its std models; the paper step composing O2 with O3/O4 (KLfun uninterpreted + O2b lemmas); Lemma A (valid => F <= 255*56403*T, its own query) justifies executing O3/O4 with F ranged; P' above the bound and the round-trip clause are outside (C01/C05).",
+   design="§4 C14"),
 }
 
 NOT_APPLICABLE = {
@@ -90,6 +95,6 @@ def main():
     except ImportError:
         print("written (jsonschema not available for validation)")
 
-HOOK_COMMITS = []
+HOOK_COMMITS = ["77b6423", "21841ff"]
 if __name__ == "__main__":
     main()
